@@ -10,18 +10,14 @@ Local Open Scope nat_scope.
 
 Inductive flow := FNormal | FAbort (kind arg : nat).
 
-(** [compose_std_command]: for 0,1,2 a missing entry or one of the [OpenFile::Std*] objects leaves
-    the [std::process::Command] default / [Stdio::inherit()], i.e. the child gets brush's own
-    descriptor of THAT number; other descriptors are injected as they are. *)
-(** The three initial open file descriptions (ids 0, 1, 2) are brush's [OpenFile::Stdin],
-    [OpenFile::Stdout], [OpenFile::Stderr]; no other description of that kind is ever created. *)
-Definition is_std (id : nat) : bool := Nat.ltb id 3.
-
+(** [compose_std_command]: for 0,1,2 a missing entry leaves the [std::process::Command] default, i.e.
+    the child inherits brush's own descriptor of that number (ids 0,1,2 are the shell's own standard
+    streams); every open entry is handed over as it is (a duplicate of the stream it names). *)
 Definition child_view (L P : tbl) : nat -> entry := fun n =>
   if Nat.ltb n 3 then
     match try_fd L P n with
     | None => Some n
-    | Some id => if is_std id then Some n else Some id
+    | Some id => Some id
     end
   else try_fd L P n.
 
@@ -76,7 +72,7 @@ Fixpoint run_cmd (c : cmd) (w : world) (P L : tbl) {struct c} : world * tbl * fl
       end
   | CGroup k body rs =>
       match apply_redirs nc P w L rs with
-      | (w1, _, Some e) => let '(kd, a) := err_kind e in (w1, P, FAbort kd a)
+      | (w1, L1, Some e) => let '(w2, f) := simple_redirect_error m w1 L1 P e in (w2, P, f)
       | (w1, L1, None) =>
           match k with
           | GBrace => run_list body w1 P L1
@@ -97,7 +93,11 @@ Fixpoint run_cmd (c : cmd) (w : world) (P L : tbl) {struct c} : world * tbl * fl
       | (w1, L1, Some e) => let '(w2, f) := simple_redirect_error m w1 L1 P e in (w2, P, f)
       | (w1, L1, None) =>
           match apply_redirs nc P w1 L1 drs with
-          | (w2, _, Some e) => let '(kd, a) := err_kind e in (put w2 (try_fd L1 P) 2%nat (msg m 1 kd a), P, FNormal)
+          | (w2, L2, Some e) =>
+              match simple_redirect_error m w2 L2 P e with
+              | (w3, FNormal) => (w3, P, FNormal)
+              | (w3, FAbort kd a) => (put w3 (try_fd L1 P) 2%nat (msg m 1 kd a), P, FNormal)
+              end
           | (w2, L2, None) =>
               match run_list body w2 P L2 with
               | (w3, P3, FNormal) => (w3, P3, FNormal)
